@@ -16,6 +16,7 @@ package sched
 
 import (
 	"sync"
+	"time"
 
 	"github.com/Tom-Johnston/mamba/verifhook"
 )
@@ -53,6 +54,7 @@ type Stats struct {
 	Yields, Switches int64
 	PerTask          [MaxTasks]int64
 	Over, Deadlock   bool
+	Stuck            bool // no yield point was executed for StuckAfter of wall time: a task is blocked for real
 	IHash            uint64
 	SwitchTrace      []uint32 // task<<16 | site, first traceCap switches
 	SiteHitDuring    int      // PolSite: whether the chosen site visit happened
@@ -81,6 +83,10 @@ var st struct {
 	ihash         uint64
 	siteSeen      [MaxSites]uint32
 	sitePreempt   [MaxSites]uint32
+	// goroutine identities (see getg): the tasks, and the goroutine that runs solo passes
+	taskG   [MaxTasks]uintptr
+	mainG   uintptr
+	foreign int64 // yield points executed by goroutines the scheduler does not control
 	// solo mode
 	solo       bool
 	soloYields int64
@@ -168,12 +174,21 @@ func decide(site int) (int32, int32, bool, bool) {
 		if !st.solo {
 			return 0, 0, false, false // idle: harness code building values between passes
 		}
+		if getg() != st.mainG {
+			st.foreign++
+			return 0, 0, false, false
+		}
 		st.soloYields++
 		soloNote(site)
 		if st.soloYields > st.soloBudget {
 			st.soloOver = true
 			return 0, 0, false, true
 		}
+		return 0, 0, false, false
+	}
+	if getg() != st.taskG[st.cur] {
+		// a goroutine started by the tree under test itself: not ours to schedule
+		st.foreign++
 		return 0, 0, false, false
 	}
 	if st.over {
@@ -231,6 +246,10 @@ func decide(site int) (int32, int32, bool, bool) {
 func decideBlocked(site int) (int32, int32, bool, bool, bool) {
 	if !st.active {
 		return 0, 0, false, false, false
+	}
+	if getg() != st.taskG[st.cur] {
+		st.foreign++
+		return 0, 0, false, false, false // falls back to a real blocking operation
 	}
 	if st.over {
 		return 0, 0, false, true, true
@@ -308,6 +327,7 @@ func Install() {
 //go:norace
 func soloBegin(budget int64) {
 	st.active = false
+	st.mainG = getg()
 	st.solo = true
 	st.soloYields = 0
 	st.soloBudget = budget
@@ -362,6 +382,15 @@ func setup(n int, cfg Config) {
 //go:norace
 func firstTask() int32 { return st.cur }
 
+//go:norace
+func registerTask(id int32) { st.taskG[id] = getg() }
+
+// ForeignYields reports how many yield points were executed by goroutines the scheduler
+// does not control (started by the tree under test) since process start.
+//
+//go:norace
+func ForeignYields() int64 { return st.foreign }
+
 // finish marks task id as done and returns the task to wake (-1: none left).
 //
 //go:norace
@@ -399,6 +428,7 @@ func Run(cfg Config, tasks []func()) ([]interface{}, Stats) {
 		wg.Add(1)
 		go func(id int32) {
 			defer wg.Done()
+			registerTask(id)
 			park(id) // nobody runs before the scheduler says so
 			func() {
 				defer func() {
@@ -418,9 +448,34 @@ func Run(cfg Config, tasks []func()) ([]interface{}, Stats) {
 		}(int32(i))
 	}
 	wake(firstTask())
-	wg.Wait()
-	return pans, teardown()
+	done := make(chan struct{})
+	go func() { wg.Wait(); close(done) }()
+	last, idle := progress(), 0
+	for {
+		select {
+		case <-done:
+			return pans, teardown()
+		case <-time.After(2 * time.Second):
+			if p := progress(); p != last {
+				last, idle = p, 0
+			} else if idle++; idle >= StuckAfterTicks {
+				// Not a single yield point in a minute: the baton holder is blocked in a real
+				// blocking operation (one the instrumenter does not rewrite). The tasks cannot be
+				// unwound; the caller must report and let the process end.
+				s := teardown()
+				s.Stuck = true
+				return pans, s
+			}
+		}
+	}
 }
+
+// StuckAfterTicks: number of consecutive 2-second ticks without any executed yield point
+// after which a concurrent pass is declared stuck.
+var StuckAfterTicks = 30
+
+//go:norace
+func progress() int64 { return st.yields + st.foreign }
 
 // Coverage returns, per site, how often it was executed / used as a switch point in
 // concurrent mode since process start.
